@@ -4,6 +4,14 @@ import json, sys
 pid, n = sys.argv[1], (sys.argv[2] if len(sys.argv) > 2 else "a")
 prop = [json.loads(l) for l in open("/verif/properties.jsonl") if json.loads(l)["id"] == pid][0]
 wt = f"/tmp/seed/{pid}{n}/wt"
+import glob, os
+prev = []
+for d in sorted(glob.glob(f"/verif/seeded/{pid}-*")):
+    try:
+        prev.append("  - " + json.load(open(os.path.join(d, "meta.json"))).get("summary", "")[:300].replace("\n", " "))
+    except Exception:
+        pass
+PREV = ("\nEARLIER BREAKERS ALREADY PRODUCED THESE CHANGES — yours must be DIFFERENT (another mechanism, another code site, or another kind of trigger; prefer mechanisms and files not touched below, multi-step histories, interactions between two methods, dtype/shape/aliasing effects, rarely used options):\n" + "\n".join(prev) + "\n") if prev else ""
 print(f"""You are testing the robustness of a Python library's semantics. The library is pybrops (plant-breeding simulation, numpy based). A git worktree of it for you alone is created like this (do it first):
 
   mkdir -p /tmp/seed/{pid}{n} && git -C /repo worktree add --detach {wt} HEAD
@@ -27,6 +35,7 @@ THE PROPERTY (a semantic property the library is supposed to satisfy):
   anchored in: {', '.join(prop['anchors']['files'])}
   mechanisms: {json.dumps(prop['anchors']['mechanism'])}
 
+{PREV}
 YOUR TASK: produce THREE different, independent, realistic code changes (as a maintainer might plausibly introduce in a refactoring, optimisation or 'fix') to the library source in the worktree, each of which BREAKS this property while (1) the package still imports and (2) the pinned test command above still reports 92 passed. Each change must need something specific to manifest — an unusual input, a particular size or tie, a multi-step sequence of operations, a rarely taken branch, or two cooperating edits that each look fine alone — NOT something that any ordinary call would expose at once. The three changes should hit different mechanisms of the property. Keep each change small (a few lines).
 
 For each change i = 1..3 deliver, under /tmp/seed/{pid}{n}/m<i>/:
